@@ -1130,7 +1130,10 @@ func main() {
 	}
 	for _, p := range append(append([]*parserDef{}, typeParsers...), bootedParsers()...) {
 		evals += r.Get("hostile_" + p.name)
-		must = append(must, "hostile_"+p.name, "reached_conversion_"+p.name)
+		must = append(must, "hostile_"+p.name)
+		if !strings.HasPrefix(p.name, "consensus.Handle[") { // Handle reports decode errors as errors; whether a body decodes is not required per code
+			must = append(must, "reached_conversion_"+p.name)
+		}
 	}
 	r.Finish(mon.Coverage{
 		Evaluations:        evals,
